@@ -56,10 +56,11 @@ type scen struct {
 	Pace   int
 	Begin  string
 	Veto   bool
+	Chunk  int // ResendRequestChunkSize of both engines (0: one request for the whole gap)
 }
 
 func (s scen) String() string {
-	return fmt.Sprintf("%s store=%s faults=%v sends/side=%d pace<%dms veto=%v", s.Begin, s.Store, s.Faults, s.NMsg, s.Pace, s.Veto)
+	return fmt.Sprintf("%s store=%s faults=%v sends/side=%d pace<%dms veto=%v chunk=%d", s.Begin, s.Store, s.Faults, s.NMsg, s.Pace, s.Veto, s.Chunk)
 }
 
 func scenario(c *core.Ctx, r *core.Result, idx int, rng *rand.Rand, isolated bool) (verdict string) {
@@ -77,6 +78,15 @@ func scenario(c *core.Ctx, r *core.Result, idx int, rng *rand.Rand, isolated boo
 		}
 		return nil
 	}
+	// gaps recovered in chunks (a recovery of several requests has to keep going by itself, not once per heartbeat)
+	sc.Chunk = core.Pick(rng, 0, 0, 0, 1, 2, 3)
+	extra := func() map[string]string {
+		m := map[string]string{"LogonTimeout": "2"}
+		if sc.Chunk > 0 {
+			m["ResendRequestChunkSize"] = fmt.Sprint(sc.Chunk)
+		}
+		return m
+	}
 	nf := 1 + rng.Intn(4)
 	for i := 0; i < nf; i++ {
 		k := core.Pick(rng, "cut-bytes", "cut-bytes", "cut-bytes", "cut-now", "cut-during-logon", "cut-during-logon", "cut-during-replay")
@@ -90,7 +100,7 @@ func scenario(c *core.Ctx, r *core.Result, idx int, rng *rand.Rand, isolated boo
 	rec := &live.Recorder{} // (callbacks are also recorded; the oracle uses its own lists)
 	tag := fmt.Sprintf("%dx%d", idx, rng.Intn(1<<20))
 	accPort := live.FreePort()
-	A := &side{name: "acceptor", opts: live.Options{Who: "acceptor", Begin: sc.Begin, Sender: "ACC" + tag, Target: "INI" + tag, Port: accPort, StoreKind: sc.Store, StoreDir: dir, R: rec, Extra: map[string]string{"LogonTimeout": "2"}, ToApp: veto}}
+	A := &side{name: "acceptor", opts: live.Options{Who: "acceptor", Begin: sc.Begin, Sender: "ACC" + tag, Target: "INI" + tag, Port: accPort, StoreKind: sc.Store, StoreDir: dir, R: rec, Extra: extra(), ToApp: veto}}
 	var err error
 	for try := 0; try < 3; try++ {
 		if A.eng, err = live.StartAcceptor(A.opts); err == nil {
@@ -107,7 +117,7 @@ func scenario(c *core.Ctx, r *core.Result, idx int, rng *rand.Rand, isolated boo
 		return "inconclusive: proxy: " + err.Error()
 	}
 	defer px.Close()
-	I := &side{name: "initiator", init: true, opts: live.Options{Who: "initiator", Begin: sc.Begin, Sender: "INI" + tag, Target: "ACC" + tag, Port: pxPort, StoreKind: sc.Store, StoreDir: dir, R: rec, Extra: map[string]string{"LogonTimeout": "2"}, ToApp: veto}}
+	I := &side{name: "initiator", init: true, opts: live.Options{Who: "initiator", Begin: sc.Begin, Sender: "INI" + tag, Target: "ACC" + tag, Port: pxPort, StoreKind: sc.Store, StoreDir: dir, R: rec, Extra: extra(), ToApp: veto}}
 	if I.eng, err = live.StartInitiator(I.opts); err != nil {
 		A.eng.Stop()
 		return "inconclusive: cannot start initiator: " + err.Error()
